@@ -150,21 +150,35 @@ def evaluate(sid, wt, tier, props):
 
 
 def table():
+    """markdown table: one row per seeded change; 'reported by' lists the
+    quick-tier checks that exit 1 on it and the oracle clauses that fired"""
     rows = []
     for sid in sorted(os.listdir(SEEDED)):
         mp = os.path.join(SEEDED, sid, "meta.json")
         if not os.path.exists(mp):
             continue
         m = json.load(open(mp))
-        caught = sorted(k for k, v in m.get("checks", {}).items()
-                        if v["verdict"] == "caught")
-        missed = sorted(k for k, v in m.get("checks", {}).items()
-                        if v["verdict"] != "caught")
-        rows.append("| %s | %s | %s | %s | %s |" % (
-            sid, m.get("property"), m.get("summary", "").replace("|", "/"),
-            ", ".join(caught) or "-", ", ".join(missed) or "-"))
-    print("| id | property | change | caught by | not caught by |")
-    print("|---|---|---|---|---|")
+        best = {}
+        for k, v in sorted(m.get("checks", {}).items()):
+            chk, tier = k.split("/")[0], k.split("/")[1]
+            if v["verdict"] == "caught":
+                best.setdefault(chk, (tier, v.get("clauses", [])))
+        own = m.get("property")
+        rep = []
+        for chk, (tier, cl) in sorted(best.items(),
+                                      key=lambda x: (x[0] != own, x[0])):
+            rep.append("%s%s (%s)" % (chk, "" if tier == "quick" else
+                                      "/" + tier, ", ".join(cl[:3])))
+        status = m.get("status", "active")
+        if status == "superseded":
+            rep.append("superseded, see meta.json")
+        if own not in best and status == "active":
+            rep.insert(0, "not %s" % own)
+        rows.append("| %s | r%s | %s | %s |" % (
+            sid, m.get("round", 1), m.get("summary", "").replace("|", "/"),
+            "; ".join(rep) or "-"))
+    print("| id | round | change | reported by (clauses) |")
+    print("|---|---|---|---|")
     print("\n".join(rows))
 
 
